@@ -527,10 +527,16 @@ def check_net2(H, spec, order, kept, mols, where):
     for (_, l, r) in impl_edges.values():
         occurring |= set(l) | set(r)
     sp = set(H.species)
+    # `kept` = species the caller chose to keep when stripping them and that have not entered a reaction since
+    for (_, l, r) in spec.values():
+        kept -= set(l) | set(r)
     if not occurring <= sp:
         fails.append("species set misses occurring species %r" % sorted(occurring - sp))
     if not sp <= occurring | kept:
         fails.append("species set has non-occurring, non-kept species %r" % sorted(sp - occurring - kept))
+    if not kept <= sp:
+        fails.append("species the caller chose to keep (remove_species(..., prune_orphans=False)) are missing from the species set: %r"
+                     % sorted(kept - sp))
     for x in sp | set(H.species_to_in_edges) | set(H.species_to_out_edges):
         prod = {k for k, (_, l, r) in impl_edges.items() if x in r}
         cons = {k for k, (_, l, r) in impl_edges.items() if x in l}
@@ -758,7 +764,9 @@ def oracle2(case):
                 order[i] = [e for e in order[i] if e in new]
                 if not op[3]:
                     kept[i].add(x)
-                elif x in nets[i].species:
+                else:
+                    kept[i].discard(x)
+                if op[3] and x in nets[i].species:
                     F("remove-species", "op %d: %r still a species after remove_species(prune_orphans=True)" % (t, x))
             elif er != "KeyError":
                 F("remove-species-error", "op %d: absent species, got %r" % (t, er))
